@@ -80,6 +80,10 @@ type stack struct {
 	// writePause, if set, is consulted before every write and may return an
 	// idle period (keepalive pings then flow and are exposed to relay faults)
 	writePause func(side string) time.Duration
+	// abandonAt: after how many bytes read the application of this instance
+	// loses interest (a cancelled RPC): it stops reading and closes the
+	// connection, possibly with part of a record still undelivered (0 = never)
+	abandonAt func(in *instance) int
 	// redialPause: how long the client application waits after its k-th
 	// connection ended before it dials again (nil = immediately).
 	redialPause func(k int) time.Duration
@@ -223,6 +227,11 @@ func (st *stack) runInstance(sd *stackSide, in *instance) {
 		simrt.Note("%s instance %d failed: %v (written %d/%d read %d/%d)", sd.name, in.k, err, in.written, in.plan, in.read, in.peerTotal)
 	}
 	closeReq := make(chan struct{})
+	var closeReqOnce sync.Once
+	abandon := 0
+	if st.abandonAt != nil {
+		abandon = st.abandonAt(in)
+	}
 	checkDone := func() {
 		sd.mu.Lock()
 		complete := in.peerTotal > 0 && in.read == in.peerTotal && in.written == in.plan
@@ -233,7 +242,7 @@ func (st *stack) runInstance(sd *stackSide, in *instance) {
 		}
 		sd.mu.Unlock()
 		if first && st.afterDone != nil && st.afterDone(in) {
-			close(closeReq)
+			closeReqOnce.Do(func() { close(closeReq) })
 		}
 	}
 	iwg.Add(2)
@@ -336,6 +345,17 @@ func (st *stack) runInstance(sd *stackSide, in *instance) {
 				return
 			}
 			checkDone()
+			if abandon > 0 && in.read >= abandon {
+				sd.mu.Lock()
+				done := in.done
+				sd.mu.Unlock()
+				if !done {
+					st.rc.Probe("stack.abandoned-mid-transfer")
+					simrt.Note("%s instance %d: application stops reading after %d bytes and closes", sd.name, in.k, in.read)
+					closeReqOnce.Do(func() { close(closeReq) })
+					return
+				}
+			}
 		}
 	}()
 	// a watcher closes the connection once a task failed (as gRPC does when
